@@ -39,7 +39,7 @@ work below all 17 are caught by their own check.
   procedure name.
 
 **Final matrix** (`seeded/MATRIX.json`, every kept seed applied to a scratch copy of HEAD 6281ee1 and run through the check of its own
-property and the related ones, with the machinery as committed): 218 seeds, 216 caught by the check of their own property, 2 answered
+property and the related ones, with the machinery as committed; the eighth wave below came after it): 218 seeds, 216 caught by the check of their own property, 2 answered
 *undecided* (C04-G, C17-K).  `benign/MATRIX.json`: 38 behaviour-preserving variants x 17 checks, no violation reported anywhere.
 
 | seed | change | needs to manifest | caught by |
